@@ -263,6 +263,12 @@ def call_method(ip, recv, name, args, kw):
             return None
         if name == 'find':
             return bytes_find(ip, b, args)
+        if name == 'isascii' and not args:
+            used(ip, 'bytes.isascii() == every byte < 128')
+            asc, k, j = fresh('isascii', B), fresh('nonascii_at'), fresh('aj')
+            st.hyps.append(Implies(asc, ForAll([j], Implies(And(j >= 0, j < b.n), b.at(j) < 128))))
+            st.assume(Implies(Not(asc), And(k >= 0, k < b.n, b.at(k) >= 128)))
+            return asc
         if name == 'decode':
             return bytes_decode(ip, b, args, kw)
         if name == 'join':
@@ -521,6 +527,9 @@ def call_builtin_class(ip, f, args, kw):
 # ----------------------------------------------------------------------------- external functions
 def call_external(ip, f, args, kw):
     st = ip.st
+    # unbound methods of the byte-string types (bytes.isascii(x), bytearray.extend(x, y), ...)
+    if type(f).__name__ == 'method_descriptor' and getattr(f, '__objclass__', None) in (bytes, bytearray) and args:
+        return call_method(ip, args[0], f.__name__, list(args[1:]), kw)
     # threading.Lock / RLock are factory functions in CPython
     if f is threading.Lock or f is threading.RLock:
         return call_builtin_class(ip, f, args, kw)
